@@ -26,6 +26,7 @@ def run(cx, chk):
     chk.rule("C15.R2", "callback arguments are references to the departing node's key and value, in that order; cb forwards them unchanged")
     chk.rule("C15.R3", "put_nonnull / put_or_evict_nonnull (no callback by design) only on receivers whose E is DefaultEvictCallback; not exported")
     chk.rule("C15.R4", "on_evict is written only by the constructor; both callback constructors pass Some(cb); clone copies it")
+    chk.rule("C15.R6", "callbacks are never invoked from inside an iteration over the hash index (they fire in recency order)")
     chk.rule("C15.R5", "when the callback runs the cache is consistent: departing node unlinked+unindexed, every other node linked+indexed, none in flight")
     for cfg, F in cx.cfgs():
         r1(cx, chk, cfg, F)
@@ -56,6 +57,20 @@ def r1(cx, chk, cfg, F):
             if w.cb_absent:
                 continue   # no callback configured on this path (on_evict was inspected and is None): nothing to count
             handback = handback_cbs(p, w, cbs)
+            # the capacity-0 hand-back returns the incoming pair as Evicted: it must be reported to the callback exactly once
+            var_ = p.ret[2][1] if isinstance(p.ret, tuple) and p.ret[0] == "agg" and p.ret[1] == "adt" and p.ret[2] else None
+            hb_path = (not deps) and var_ == "Evicted" and dict(zip(p.ret[4], p.ret[3])).get("key") == ("param", 2, False)
+            if hb_path and len(handback) != 1:
+                bad = True
+                chk.violation("C15.R1", "%s|handback-no-cb" % f["q"], "%s hands the incoming pair back as Evicted (capacity 0) with %d callback invocations for it (must be exactly one)" % (f["q"], len(handback)),
+                              f["span"]["file"], f["span"]["lo"], f["q"], None, cfg)
+            hash_iter = [e for e in p.events if (e["ev"] == "loop" and any(x in (e.get("iter_ty") or "") for x in ("hash_map::", "hash::map::", "hashbrown::")))
+                         or (e["ev"] == "call" and (e.get("q") or "").split("::")[-1] in ("drain", "iter", "iter_mut", "values", "values_mut", "keys", "into_iter", "retain")
+                             and "HashMap" in (e.get("q") or "") + str((e.get("f") or {}).get("self_ty", "")))]
+            if cbs and hash_iter:
+                bad = True
+                chk.violation("C15.R6", "%s|hash-order" % f["q"], "%s invokes the eviction callback while iterating the hash index: the callbacks fire in hash order, not in the order the entries leave the recency list" % f["q"],
+                              f["span"]["file"], hash_iter[0].get("ln"), f["q"], None, cfg)
             if len(cbs) - len(handback) != len(deps):
                 bad = True
                 e = (cbs[0][1] if cbs else (p.events[deps[0][0]] if deps else {"ln": f["span"]["lo"], "fn": f["path"]}))
